@@ -582,6 +582,25 @@ func c01(c *Ctx) {
 		}
 	})
 
+	if c.Tier == "thorough" {
+		c.Rule("C01.R8", "thorough: in the VTA call graph (function values and interface calls resolved) the aggregator methods have no caller other than the worker loop, process commands and the aggregator itself", 4, func(r *Rule) {
+			for _, m := range aggregatorMethods {
+				fn := w.Func("pkg/statsd", "(*MetricAggregator)."+m)
+				if fn == nil {
+					r.Unresolved("(*MetricAggregator)." + m)
+					continue
+				}
+				for _, caller := range vtaCallersOf(w, fn) {
+					if strings.Contains(fnPkgPath(caller), "/internal/fixtures") {
+						continue
+					}
+					ok := FuncName(caller) == "(*pkg/statsd.worker).work" || dpf[caller] || (caller.Signature.Recv() != nil && typeIs(caller.Signature.Recv().Type(), "pkg/statsd", "MetricAggregator")) || caller.Synthetic != ""
+					r.Check("vta-caller:"+m+":"+FuncName(caller), ok, caller.Pos(), FuncName(caller)+" may call MetricAggregator."+m+" per VTA")
+				}
+			}
+		})
+	}
+
 	c.Rule("C01.R7", "four-type exhaustiveness on the standalone path (C07.R6)", 10, func(r *Rule) {
 		fourTypeRule(c, r, nil)
 	})
@@ -661,6 +680,26 @@ func backendImpls(w *World, name string) []*ssa.Function {
 					}
 				}
 			}
+		}
+	}
+	sort.Slice(out, func(i, j int) bool { return FuncName(out[i]) < FuncName(out[j]) })
+	return out
+}
+
+// vtaCallersOf returns the functions with an edge to fn in the VTA call graph.
+func vtaCallersOf(w *World, fn *ssa.Function) []*ssa.Function {
+	cg := w.VTA()
+	n := cg.Nodes[fn]
+	if n == nil {
+		return nil
+	}
+	seen := map[*ssa.Function]bool{}
+	var out []*ssa.Function
+	for _, e := range n.In {
+		c := e.Caller.Func
+		if c != nil && !seen[c] {
+			seen[c] = true
+			out = append(out, c)
 		}
 	}
 	sort.Slice(out, func(i, j int) bool { return FuncName(out[i]) < FuncName(out[j]) })
